@@ -75,3 +75,39 @@ pub fn arg_usize(args: &[String], name: &str, default: usize) -> usize {
         .and_then(|s| s.parse().ok())
         .unwrap_or(default)
 }
+
+
+/// Watchdog for calls into the real code that may never return (a runner that misses a
+/// cancellation or an error): if the guard is still alive after `secs`, print a self-checking
+/// failure line naming the case and end the process (the lines collected so far are lost, the
+/// hang is reported with its label; `--only` replays are by seed and label).
+pub struct Deadline(std::sync::Arc<std::sync::atomic::AtomicBool>);
+
+pub fn deadline(secs: u64, label: String) -> Deadline {
+    let done = std::sync::Arc::new(std::sync::atomic::AtomicBool::new(false));
+    let d2 = done.clone();
+    std::thread::spawn(move || {
+        let t0 = std::time::Instant::now();
+        while t0.elapsed().as_secs() < secs {
+            if d2.load(std::sync::atomic::Ordering::SeqCst) {
+                return;
+            }
+            std::thread::sleep(std::time::Duration::from_millis(20));
+        }
+        if !d2.load(std::sync::atomic::Ordering::SeqCst) {
+            use std::io::Write;
+            let out = std::io::stdout();
+            let mut l = out.lock();
+            let _ = writeln!(l, "!hang {label}\tFAIL the call did not return within {secs} s\thang");
+            let _ = l.flush();
+            std::process::exit(0);
+        }
+    });
+    Deadline(done)
+}
+
+impl Drop for Deadline {
+    fn drop(&mut self) {
+        self.0.store(true, std::sync::atomic::Ordering::SeqCst);
+    }
+}
